@@ -169,6 +169,20 @@ func buildC10(tier string) sim.Scenario {
 				}
 				rd, size, err := hl.Segment(seq)
 				if err != nil {
+					// the window may have moved on between the two calls (the muxer ran in between, or simulated time passed
+					// while this task was pre-empted): only a segment that is still listed has to resolve
+					still := false
+					if body2, err2 := hl.M3u8(token); err2 == nil {
+						if p2, err3 := oracle.ParseM3U8(string(body2)); err3 == nil {
+							for _, e2 := range p2.Entries {
+								still = still || e2.URI == e.URI
+							}
+						}
+					}
+					if !still {
+						w.Probe("c10.rolled-over-between-playlist-and-fetch")
+						continue
+					}
 					w.Fail("C10/playlist", "listed segment %d does not resolve: %s", seq, strings.ReplaceAll(err.Error(), dir, "<hlspath>"))
 					return
 				}
